@@ -158,7 +158,10 @@ func init() {
 		Bounds:      "documents with free bytes in ONE literal at a time: 12 positions (const, default, annotation on field/struct/enum value/function/service/namespace/type, list and map constant elements, cpp_include) x both quote kinds x body of <=3 free ASCII bytes (thorough 4); placeholder prefixes (##34, #OUTQUOTE, &am, &#3, a\\) + <=2 free bytes; integer/double/id spellings with 2 free digits; service shapes: 0..2 arguments x 0..3 throws x oneway/void/extends/requiredness",
 		Assumptions: []string{"source documents that the parser or checker rejects are skipped (precondition of the property)", "the deprecated template based DumpIDL_V1 is outside (html/template not encodable)"},
 		Harnesses: []Harness{
-			{Func: "H_C17_literal", Quick: tuples3(seq(0, 11), seq(0, 1), seq(0, 3)), Thorough: tuples3(seq(0, 11), seq(0, 1), seq(0, 4)), Covers: []string{"roundtrip", "rejected"}},
+			{Func: "H_C17_literal", Quick: tuples3(seq(0, 11), seq(0, 1), seq(0, 3)), Thorough: tuples3(seq(0, 11), seq(0, 1), seq(0, 4)), Covers: []string{"roundtrip", "rejected"},
+				// with 4 free bytes the body can close the literal and open a NUMBER whose digits are free; the
+				// dumper formats it (opaque text in the engine) and searches that text: those paths are not decided
+				AllowInconclusive: []string{"strings.Index on an opaque string"}},
 			{Func: "H_C17_literal_pre", Quick: tuples3(seq(0, 8), seq(0, 1), seq(1, 3)), Thorough: tuples3(seq(0, 8), seq(0, 1), seq(1, 4)), Covers: []string{"roundtrip"}},
 			{Func: "H_C17_numbers", Quick: rng(0, 5), Covers: []string{"end"}},
 			{Func: "H_C17_structure", Covers: []string{"end"}},
